@@ -120,6 +120,11 @@ func plasmaHistory(c *Ctx, id int) {
 	for k, p := range firstBlockAccounts {
 		pr.handMatrix(p, id+k, 14)
 	}
+	// base cost by destination x data length x block type: the function itself (plasma-base lines) and hand-built sends of the
+	// account with the most plasma (s_plasma_hand.go)
+	pr.baseMatrix(rich)
+	pr.baseMatrix(poor[id%len(poor)])
+	pr.handDestMatrix(rich, id, mom)
 
 	candidate := func(acc types.Address) {
 		frontier := n.Chain().GetFrontierMomentumStore()
@@ -150,7 +155,7 @@ func plasmaHistory(c *Ctx, id int) {
 			tpl.FromBlockHash = inbox[acc][0]
 		case kind <= 3:
 			tpl.BlockType = nom.BlockTypeUserSend
-			tpl.ToAddress = g.User2.Address
+			tpl.ToAddress = handDest(acc, []int{0, 0, 0, 1, 2}[c.R.Intn(5)]) // an ordinary account, the zero address, the sender itself
 			tpl.TokenStandard = types.ZnnTokenStandard
 			tpl.Amount = big.NewInt(0)
 			dl := []int{0, 1, 2, 100, 1000, constants.MaxDataLength - 1, constants.MaxDataLength, constants.MaxDataLength + 1}[c.R.Intn(8)]
